@@ -4,6 +4,7 @@
 import SonicModel.Lemmas.GetRefine
 import SonicModel.Lemmas.SpecBound
 import SonicModel.Lemmas.BlockProof
+import SonicModel.Lemmas.ScanGrammar
 namespace Sonic.Thm.C10
 open Sonic Gen Impl Spec
 
@@ -101,6 +102,22 @@ theorem unchecked_container_block (bl : List UInt8) (hl : bl.length = 64) (st : 
     (left right : UInt8) (hne : left ≠ right) :
     (Block.containerBlock bl st left right).1 = (Spec.scan left right bl (Block.dec st)).1 :=
   (Block.containerBlock_spec bl hl st hg left right hne).1
+
+/-- **on well-formed input the unchecked skipper is right**: if a container of the RFC 8259 grammar starts at `i`
+    (`{` or `[`) and ends at `e`, then `skip_container`, started just after the opening bracket on the rest of the
+    buffer — whatever follows the container — consumes exactly the bytes up to and including the matching closing
+    bracket (nested containers of both kinds, strings with brackets, escaped quotes and backslash runs, any whitespace) -/
+theorem unchecked_skip_finds_the_matching_bracket (left right : UInt8) (hk : Spec.Kind left right) (buf : Buf)
+    (f i e : Nat) (hopen : buf[i]? = some left) (h : Spec.value false f buf i = .ok e) :
+    Block.skipContainer ((buf.toList.drop (i + 1)).length / 64 + 1) (buf.toList.drop (i + 1)) Block.St.init left right 0 =
+      some (e - (i + 1)) := by
+  have hne : left ≠ right := by rcases hk with ⟨rfl, rfl⟩ | ⟨rfl, rfl⟩ <;> decide
+  have hr : right ≠ 0 := by rcases hk with ⟨_, rfl⟩ | ⟨_, rfl⟩ <;> decide
+  rw [Block.skipContainer_eq_scalar left right hne hr]
+  unfold Spec.skipContainerScalar
+  rw [← Spec.scanB_list left right buf (buf.size - (i + 1)) (i + 1) Spec.ScanSt.init rfl]
+  have hbe := ((Spec.bound false buf f i e).1) h
+  exact Spec.container_scan left right hk buf f i e hopen h buf.size hbe
 
 /-- non-vacuity: `"a}\"{" : [ { } ] } tail` after `{` — the brace inside the string and the escaped quote do not count -/
 example : Spec.skipContainerScalar 123 125 [34, 97, 125, 92, 34, 123, 34, 58, 91, 123, 125, 93, 125, 32, 125] = some 13 := by
